@@ -731,10 +731,13 @@ def c12_corpus(tier, seed):
                 fields = [Field(T, Clone='method'), Field(PH(U)), Field(U8)]
             if tr == 'Default':
                 fields = [Field(T, Default='expr'), Field(PH(U)), Field(U8)]
+            kw = {}
+            if tr == 'Debug':
+                kw = [dict(topt={'Debug': 'named_field = false'}), dict(vattr={'A': 'Debug(named_field = true)'}), dict(topt={'Debug': 'name = false'}), dict(vattr={'A': 'Debug(name = false)'})][mi % 4]
             if mi % 2 == 0:
-                add('struct', rich, [('S', 'named', fields, False)], traits, hand=hand, where='T: Marker2, U: Iterator<Item = u8>' if mi % 4 == 0 else None)
+                add('struct', rich, [('S', 'named', fields, False)], traits, hand=hand, where='T: Marker2, U: Iterator<Item = u8>' if mi % 4 == 0 else None, wstyle='trailing' if mi % 8 == 4 else 'plain', **kw)
             else:
-                add('enum', rich, [('A', 'tuple', fields, tr == 'Default'), ('B', 'unit', [], False)], traits, hand=hand, where="U: 'a" if mi % 4 == 1 else None)
+                add('enum', rich, [('A', 'tuple', fields, tr == 'Default'), ('B', 'unit', [], False)], traits, hand=hand, where="U: 'a" if mi % 4 == 1 else None, wstyle='trailing' if mi % 8 == 5 else 'plain', **kw)
     # per-target bounds on Into
     for m in [None, '*', ('list', 'T: ::core::convert::Into<u8>'), ('str', 'T: ::core::convert::Into<u8>, U: ::core::clone::Clone')]:
         add('struct', [('type', 'T', None, None), ('type', 'U', None, None)], [('S', 'named', [Field(T, Into='into'), Field(U)], False)], [('Into', m)])
@@ -767,6 +770,8 @@ def c12_corpus(tier, seed):
                 inl = {'T': 'Copy', 'U': 'Copy'} if kind == 'union' else {}
                 first = Field(T, **({'Into': 'into'} if tr == 'Into' else {'Deref': 'marker', 'DerefMut': 'marker'} if tr == 'Deref' else {'Default': 'marker'} if (tr == 'Default' and kind == 'union') else {}))
                 traits = [(tr, mode)] if tr != 'Deref' else [('Deref', None), ('DerefMut', None)]
+                if kind == 'union' and tr == 'Clone':
+                    traits = [('Copy', None), ('Clone', None)]     # a union's educed Clone is `*self`: the union itself must be Copy
                 where = 'T: Marker2' if wstyle == 'trailing' else None
                 if kind == 'struct':
                     vs = [('S', 'named' if k % 4 < 2 else 'tuple', [first, Field(PH(U))], False)]
